@@ -165,7 +165,7 @@ def run_cases(cases, servertype):
         ua = d.register(J(), "a")
         ub = d.register(J(), "b")
         drv = memnet.ServerDriver(d)
-        for case in cases:
+        for case_no, case in enumerate(cases):
             sc.set_budget(20000)
             ser = case["ser"]
             tr = {"calls": case["calls"], "pre": case["pre"], "oneway": case["oneway"], "hang": False, "ser": ser, "drain": case["drain"]}
@@ -189,7 +189,11 @@ def run_cases(cases, servertype):
                         for c in case["pre"]:
                             invoke_on(bp, c)
                         try:
-                            bp()            # results deliberately not looked at
+                            # results deliberately not looked at; every other time the earlier batch is a oneway batch
+                            bp(oneway=bool(case_no % 2))
+                            sc.quiesce()
+                        except (S.Hang, S.SchedAbort):
+                            raise
                         except Exception:
                             pass
                 tr["bat"] = submit_batch(P, bp, case["calls"], case["oneway"])
